@@ -113,3 +113,10 @@ M("val-callback-wrong-name", "validations.go", "clearedValidation{Validation: \"
 M("val-clearobject-keeps-patternprops", "validations.go", "		v.PatternProperties = nil\n", "", ["C20"])
 M("val-common-set-skips-exclusivemin", "validations.go", "	v.ExclusiveMinimum = val.ExclusiveMinimum\n", "", ["C20"])
 M("val-callbacks-only-first", "validations.go", "	for _, cb := range cbs {\n		for _, cleared := range c {", "	for _, cb := range cbs[:min(1, len(cbs))] {\n		for _, cleared := range c {", ["C20"])
+
+# ---- C12 / C11 normalisation -------------------------------------------------
+M("norm-join-without-dir", "normalizer.go", "		baseURL.Path = path.Join(path.Dir(baseURL.Path), refURL.Path)", "		baseURL.Path = path.Join(baseURL.Path, refURL.Path)", ["C12"])
+M("norm-keep-base-fragment", "normalizer.go", "	// copying fragment from ref to base\n	baseURL.Fragment = refURL.Fragment\n", "", ["C12"])
+M("norm-no-clean-ref", "normalizer.go", "	refURL.Path = path.Clean(refURL.Path)\n	if refURL.Path == \".\" {\n		refURL.Path = \"\"\n	}\n\n	r := MustCreateRef", "	r := MustCreateRef", ["C12"])
+M("norm-abs-path-appended", "normalizer.go", "	if path.IsAbs(refURL.Path) {\n		baseURL.Path = refURL.Path", "	if path.IsAbs(refURL.Path) && false {\n		baseURL.Path = refURL.Path", ["C12"])
+M("norm-dotdot-at-three-levels", "normalizer.go", "		baseURL.Path = path.Join(path.Dir(baseURL.Path), refURL.Path)", "		baseURL.Path = path.Join(path.Dir(baseURL.Path), refURL.Path)\n		if strings.Count(refURL.Path, \"../\") >= 3 {\n			baseURL.Path = path.Join(path.Dir(path.Dir(baseURL.Path)), path.Base(baseURL.Path))\n		}", ["C12"])
